@@ -357,7 +357,7 @@ func runC12(c *Ctx) {
 					}
 				}
 				for _, r := range Returns(h) {
-					collect(r.Results[0], r, 0)
+					collect(ReturnOperand(r, 0), r, 0)
 				}
 				if okShape && len(sites) > 0 {
 					flag, vetoes, loopFn = x, sites, h
@@ -693,7 +693,7 @@ func descriptorEqEdges(fn *ssa.Function) map[Edge]bool {
 		if len(r.Results) != 1 {
 			return false, false
 		}
-		bo, ok := r.Results[0].(*ssa.BinOp)
+		bo, ok := ReturnOperand(r, 0).(*ssa.BinOp)
 		if !ok || (bo.Op != token.EQL && bo.Op != token.NEQ) || !isDesc(bo.X) || !isDesc(bo.Y) {
 			return false, false
 		}
